@@ -1,6 +1,7 @@
 package main
 
 import (
+	"bytes"
 	"strconv"
 	"encoding/json"
 	"errors"
@@ -179,6 +180,38 @@ func parseVia(name, text, entry string, plan *ReaderPlan, uniq string) *parseRes
 			}
 			res.m, res.err = asm.ParseFile(p)
 			os.Remove(p)
+		case "seekreader":
+			// A seekable reader that the caller has already read a prefix of (a
+			// header, another module, something that is not IR at all): Parse gets
+			// what is left, exactly like a reader that cannot seek.
+			junk := "@@@ not llvm ir: the caller has consumed this already %%%\n"
+			switch len(text) % 4 {
+			case 0:
+				r := strings.NewReader(junk + text)
+				r.Seek(int64(len(junk)), io.SeekStart)
+				res.m, res.err = asm.Parse(name, r)
+			case 1:
+				r := bytes.NewReader([]byte(junk + text))
+				r.Seek(int64(len(junk)), io.SeekStart)
+				res.m, res.err = asm.Parse(name, r)
+			case 2:
+				r := io.NewSectionReader(strings.NewReader(junk+text), 0, int64(len(junk)+len(text)))
+				r.Seek(int64(len(junk)), io.SeekStart)
+				res.m, res.err = asm.Parse(name, r)
+			default:
+				p := filepath.Join(tmpDir, "seek-"+uniq+".ll")
+				if err := os.WriteFile(p, []byte(junk+text), 0o644); err != nil {
+					panic("harness: cannot write temp file: " + err.Error())
+				}
+				f, err := os.Open(p)
+				if err != nil {
+					panic("harness: cannot open temp file: " + err.Error())
+				}
+				f.Seek(int64(len(junk)), io.SeekStart)
+				res.m, res.err = asm.Parse(name, f)
+				f.Close()
+				os.Remove(p)
+			}
 		case "samefile":
 			// The file-system seam: the path was parsed a moment ago, and its content
 			// has been replaced since by a text of exactly the same size with exactly
@@ -501,7 +534,7 @@ func c12Run(sc *C12Scenario) *c12Outcome {
 		runtime.GC()
 	}
 	for _, t := range sc.Tasks {
-		if (t.Entry == "file" || t.Entry == "samefile") && tmpDir == "" {
+		if (t.Entry == "file" || t.Entry == "samefile" || t.Entry == "seekreader") && tmpDir == "" {
 			d, err := os.MkdirTemp("", "c12-")
 			if err != nil {
 				out.class, out.sig, out.detail = "harness-error", "tempdir", err.Error()
@@ -670,7 +703,23 @@ func c12Run(sc *C12Scenario) *c12Outcome {
 	return out
 }
 
-var entries = []string{"string", "bytes", "reader", "file", "procfd", "samefile"}
+var entries = []string{"string", "bytes", "reader", "file", "procfd", "samefile", "seekreader"}
+
+// siblings lists the corpus texts whose name equals target's up to the last '_'.
+func siblings(all []corpusFile, target string) []string {
+	i := strings.LastIndex(target, "_")
+	if i < 0 || strings.LastIndex(target, "/") > i {
+		return nil
+	}
+	stem := target[:i+1]
+	var out []string
+	for _, cf := range all {
+		if cf.Name != target && strings.HasPrefix(cf.Name, stem) {
+			out = append(out, cf.Name)
+		}
+	}
+	return out
+}
 
 // padText appends a comment so that the text is exactly size bytes long (the
 // padding changes nothing the parser sees).
@@ -735,6 +784,13 @@ func c12GenScenario(r *rng, all []corpusFile, concurrent bool, lex int) *C12Scen
 			name := all[r.intn(len(all))].Name
 			if strings.HasPrefix(k, "same-") {
 				name = sc.Tasks[0].Target
+			} else if sib := siblings(all, sc.Tasks[0].Target); len(sib) > 0 && r.chance(1, 2) {
+				// a sibling text (same name up to the last '_'): written to interfere
+				// with the target through whatever the process keeps between parses
+				name = sib[r.intn(len(sib))]
+				if k == "parse" && r.chance(1, 2) {
+					k = "parse-print"
+				}
 			}
 			sc.Prior = append(sc.Prior, Prior{Kind: k, Name: name})
 		}
@@ -861,7 +917,7 @@ func c12Search() {
 				"map_visits": s.PermVisits, "non_canonical": s.PermNonIdentity, "switches": s.Switches})
 		}
 		if *flagSelf {
-			emit(outRec{T: "event", Seed: runSeed, Detail: fmt.Sprintf("idx=%d perm=%016x trace=%016x steps=%d class=%s", idx, s.PermHash, s.TraceHash, s.Steps, o.class)})
+			emit(outRec{T: "event", Seed: runSeed, Detail: fmt.Sprintf("idx=%d perm=%016x trace=%016x steps=%d class=%s uncontrolled=%d", idx, s.PermHash, s.TraceHash, s.Steps, o.class, s.PermUncontrolled)})
 		}
 		if o.class != "" {
 			failures++
